@@ -162,17 +162,24 @@ impl Numeric {
     }
 
     pub fn pow(&self, exp: i32) -> Numeric {
-        if exp < 0 {
-            &Numeric::one() / &self.pow(-exp)
-        } else {
-            match *self {
-                Numeric::Rational(ref value) => {
-                    let num = value.numer().pow(exp as u32);
-                    let den = value.denom().pow(exp as u32);
-                    Numeric::Rational(BigRat::ratio(&num, &den))
-                }
-                Numeric::Float(value) => Numeric::Float(value.powi(exp)),
+        // The magnitude of i32::MIN doesn't fit in an i32.
+        let abs = exp.unsigned_abs();
+        let res = match *self {
+            Numeric::Rational(ref value) => {
+                let num = value.numer().pow(abs);
+                let den = value.denom().pow(abs);
+                Numeric::Rational(BigRat::ratio(&num, &den))
             }
+            Numeric::Float(value) => Numeric::Float(if abs <= i32::MAX as u32 {
+                value.powi(abs as i32)
+            } else {
+                value.powf(abs as f64)
+            }),
+        };
+        if exp < 0 {
+            &Numeric::one() / &res
+        } else {
+            res
         }
     }
 }
